@@ -84,6 +84,7 @@ type peer interface {
 	findRequest(path string, observe uint32) ([]byte, int32, bool) // token, mid of the newest matching request not yet answered
 	respond(mid int32, tok []byte, code codes.Code, obs *uint32, pay string)
 	notify(tok []byte, seq uint32, pay string)
+	ack(mid int32, tok []byte) // datagram: empty acknowledgement of the request; stream: nothing
 	settle()
 	nobs() int
 	close()
@@ -116,6 +117,7 @@ func runOne(st Stim, transport string) Trace {
 	obsH := map[int]interface {
 		Cancel(ctx context.Context, opts ...message.Option) error
 	}{}
+	giveup := map[int]context.CancelFunc{}
 	vnow.Store(0)
 	for _, s := range st.Steps {
 		e := s.Ev
@@ -126,7 +128,11 @@ func runOne(st Stim, transport string) Trace {
 		case "register":
 			k := e.K
 			go func() {
-				o, err := p.observe(context.Background(), path, func(m *pool.Message) {
+				octx, ocancel := context.WithCancel(context.Background())
+				mu.Lock()
+				giveup[k] = ocancel
+				mu.Unlock()
+				o, err := p.observe(octx, path, func(m *pool.Message) {
 					c := Call{K: k, Code: int(m.Code())}
 					if v, err := m.Observe(); err == nil {
 						c.HasSeq, c.Seq = true, int(v)
@@ -175,6 +181,19 @@ func runOne(st Stim, transport string) Trace {
 				default:
 					p.respond(mid, tok, codes.NotFound, nil, "")
 				}
+				applied = true
+				hooks.WaitFor(conns.WD, func() bool { mu.Lock(); defer mu.Unlock(); return ret[e.K] != "none" })
+			}
+		case "giveup":
+			// the caller's context ends while Observe() waits for the first answer; on a datagram connection the
+			// request is acknowledged first (otherwise the call is still in the wait for the acknowledgement)
+			tok, mid, found := p.findRequest(path, 0)
+			mu.Lock()
+			cf := giveup[e.K]
+			mu.Unlock()
+			if found && cf != nil {
+				p.ack(mid, tok)
+				cf()
 				applied = true
 				hooks.WaitFor(conns.WD, func() bool { mu.Lock(); defer mu.Unlock(); return ret[e.K] != "none" })
 			}
@@ -286,6 +305,10 @@ func (p *udpPeer) notify(tok []byte, seq uint32, pay string) {
 	p.mid++
 	_ = p.u.Inject(memnet.Build(message.NonConfirmable, int(codes.Content), p.mid, tok, message.Options{{ID: message.Observe, Value: encUint(seq)}}, []byte(pay)))
 }
+func (p *udpPeer) ack(mid int32, _ []byte) {
+	p.answered[mid] = true
+	_ = p.u.Inject(memnet.Build(message.Acknowledgement, int(codes.Empty), mid, nil, nil, nil))
+}
 func (p *udpPeer) settle() { p.u.Quiesce() }
 func (p *udpPeer) nobs() int {
 	o, _, _ := p.u.CC.VerifAux()
@@ -351,6 +374,11 @@ func (p *tcpPeer) respond(mid int32, tok []byte, code codes.Code, obs *uint32, p
 }
 func (p *tcpPeer) notify(tok []byte, seq uint32, pay string) {
 	p.t.Feed(conns.Frame(int(codes.Content), tok, message.Options{{ID: message.Observe, Value: encUint(seq)}}, []byte(pay)))
+}
+func (p *tcpPeer) ack(mid int32, tok []byte) {
+	for o := uint32(0); o <= 1; o++ {
+		p.answered[fmt.Sprintf("%x/%d/%d", tok, o, mid)] = true
+	}
 }
 func (p *tcpPeer) settle() { p.t.Settle() }
 func (p *tcpPeer) nobs() int {
